@@ -975,8 +975,7 @@ impl<'de> de::Deserializer<'de> for Deserializer {
         V: de::Visitor<'de>,
     {
         if name == VALUE {
-            self.enum_type = EnumType::Value;
-            self.deserialize_any(visitor)
+            visitor.visit_enum(ValueAccess { value: self.value })
         } else if name == DESCRIPTOR {
             self.enum_type = EnumType::Descriptor;
             match &self.value {
@@ -1121,6 +1120,59 @@ impl<'de> de::MapAccess<'de> for MapAccess {
             }
             None => Ok(None),
         }
+    }
+}
+
+/// Hands a [`Value`] to its own visitor: the variant is named by the value's format code,
+/// the content is the value itself, so every kind comes back as the kind it was
+struct ValueAccess {
+    value: Value,
+}
+
+impl<'de> de::EnumAccess<'de> for ValueAccess {
+    type Error = Error;
+    type Variant = Self;
+
+    fn variant_seed<V>(self, seed: V) -> Result<(V::Value, Self::Variant), Self::Error>
+    where
+        V: de::DeserializeSeed<'de>,
+    {
+        let code = self.value.format_code();
+        let val = seed.deserialize(de::value::U8Deserializer::<Error>::new(code))?;
+        Ok((val, self))
+    }
+}
+
+impl<'de> de::VariantAccess<'de> for ValueAccess {
+    type Error = Error;
+
+    fn unit_variant(self) -> Result<(), Self::Error> {
+        Ok(())
+    }
+
+    fn newtype_variant_seed<T>(self, seed: T) -> Result<T::Value, Self::Error>
+    where
+        T: de::DeserializeSeed<'de>,
+    {
+        seed.deserialize(Deserializer::new(self.value))
+    }
+
+    fn tuple_variant<V>(self, _len: usize, _visitor: V) -> Result<V::Value, Self::Error>
+    where
+        V: de::Visitor<'de>,
+    {
+        Err(Error::InvalidValue)
+    }
+
+    fn struct_variant<V>(
+        self,
+        _fields: &'static [&'static str],
+        _visitor: V,
+    ) -> Result<V::Value, Self::Error>
+    where
+        V: de::Visitor<'de>,
+    {
+        Err(Error::InvalidValue)
     }
 }
 
